@@ -16,6 +16,10 @@ def family(ctx):
     from gen import corpus, litmus
     out += corpus.corpus("C16")
     out += [p for p in litmus.family(ctx.seed, True) if "fence sc" in p][: (20 if ctx.quick else 200)]
+    # thread-locals and lazy statics (values created in one iteration must not be visible in the next)
+    from gen import c17c20
+    tl = c17c20.c17_family(ctx.seed, True)
+    out += tl[:: max(1, len(tl) // (30 if ctx.quick else 300))]
     # leave state behind: leaks, deadlocks, races, panics, objects of every kind
     out += ["cfg | T0: anew 0", "cfg | T0: tnew 0", "cfg q=1 | T0: send 0 1", "cfg m=1 | T0: lock 0",
             "cfg m=1 | T0: spawn 1; lock 0; join 1 | T1: lock 0", "cfg c=1 | T0: spawn 1; cwr 0 1; join 1 | T1: cwr 0 2",
@@ -88,11 +92,26 @@ def run(ctx):
     shutil.rmtree(ckdir, ignore_errors=True)
     os.makedirs(ckdir)
     sample = [p for p in programs if len(lvlib.iterations(fresh.get(p) or [])[0]) > 1 and "ckpt=" not in p]
-    sample = sample[: (60 if ctx.quick else 600)]
+    from gen import corpus as _corpus
+    first = [p for p in _corpus.corpus("C16") if p in sample]
+    sample = (first + [p for p in sample if p not in first])[: (60 if ctx.quick else 600)]
     with_starts = run_cmd(["run", "--starts", "--max", str(cap)], sample)
     replayed = 0
+    import json as _json
     for p in sample:
         its, done = lvlib.iterations(with_starts.get(p) or [])
+        # the part of the explorer's state that is not the list of recorded decisions must be the same at the start of
+        # every iteration: position 0, not skipping, exploring as configured (a skip_branch or stop_exploring of the
+        # previous iteration must not reach into this one)
+        for it in its:
+            if "start" not in it:
+                continue
+            st = _json.loads(it["start"])
+            if st.get("pos") != 0 or st.get("skipping") or st.get("exploring") != st.get("exploring_on_start"):
+                failures.append((p, "forbidden", f"iteration {it['idx']} does not start from the initial explorer state: pos="
+                                 f"{st.get('pos')} skipping={st.get('skipping')} exploring={st.get('exploring')} "
+                                 f"exploring_on_start={st.get('exploring_on_start')}"))
+                break
         ks = sorted(set([1, 2, len(its) // 2, len(its) - 1]) & set(range(1, len(its))))
         for k in ks:
             it = its[k]
